@@ -162,10 +162,10 @@ std::string gen_lin(Rng &r, unsigned nv, int maxterms = 2) {
 
 // constraint over one or two variables (always mentions at least one variable)
 std::string gen_cst(Rng &r, unsigned nv) {
-  static const char *ks[] = {"le", "le", "le", "lt", "eq", "ne"};
+  static const char *ks[] = {"le", "le", "le", "lt", "ne", "eq"};
   std::ostringstream o;
   unsigned x = r.below(nv);
-  o << "(" << ks[r.below(6)] << " (lin " << r.range(-6, 6);
+  o << "(" << ks[r.below(r.below(3) == 0 ? 6 : 5)] << " (lin " << r.range(-6, 6);
   if (r.below(3) == 0 && nv > 1) {
     unsigned y = r.below(nv);
     if (y == x) y = (x + 1) % nv;
@@ -179,7 +179,7 @@ std::string gen_cst(Rng &r, unsigned nv) {
 
 std::string gen_stmt(Rng &r, unsigned nv, bool allow_unreach) {
   unsigned x = r.below(nv);
-  switch (r.below(allow_unreach ? 21 : 20)) {
+  switch (r.below(allow_unreach ? 23 : 20)) {
   case 0: case 1: case 2: case 3: case 4:
     return "(assign " + V(x) + " " + gen_lin(r, nv) + ")";
   case 5: case 6: case 7: case 8: {
@@ -195,11 +195,26 @@ std::string gen_stmt(Rng &r, unsigned nv, bool allow_unreach) {
     return "(bin " + op + " " + V(x) + " " + V(r.below(nv)) + " " + b + ")";
   }
   case 9: case 10: return "(havoc " + V(x) + ")";
-  case 11: case 12: case 13: return "(assume " + gen_cst(r, nv) + ")";
-  case 14: case 15: case 16: return "(assert " + gen_cst(r, nv) + ")";
+  case 11: case 12: return "(assume " + gen_cst(r, nv) + ")";
+  case 13: case 14: return "(assert " + gen_cst(r, nv) + ")";
+  case 15: case 16: return "(assign " + V(x) + " " + gen_lin(r, nv, 1) + ")";
   case 17: case 18: case 19: return "(select " + V(x) + " " + gen_cst(r, nv) + " " + gen_lin(r, nv, 1) + " " + gen_lin(r, nv, 1) + ")";
   default: return "(unreachable)";
   }
+}
+
+// a definition followed by an assertion the interval analysis can prove (material for
+// lower_safe_assertions): x = c; ...; assert(x <= c + d)  /  assert(x >= c - d)
+void add_provable(Rng &r, GProg &p, unsigned b) {
+  unsigned x = r.below(p.nv);
+  int64_t c = r.range(-4, 6), d = r.range(0, 2);
+  auto &st = p.bs[b].st;
+  st.push_back("(assign " + V(x) + " (lin " + std::to_string(c) + "))");
+  if (r.coin()) st.push_back("(bin add " + V(x) + " " + V(x) + " 1)"), c++;
+  if (r.coin())
+    st.push_back("(assert (le (lin " + std::to_string(-(c + d)) + " (1 " + V(x) + "))))"); // x <= c+d
+  else
+    st.push_back("(assert (le (lin " + std::to_string(c - d) + " (-1 " + V(x) + "))))"); // x >= c-d
 }
 
 void add_edge(GProg &p, unsigned a, unsigned b) {
@@ -207,7 +222,7 @@ void add_edge(GProg &p, unsigned a, unsigned b) {
   if (std::find(s.begin(), s.end(), b) == s.end()) s.push_back(b);
 }
 
-GProg gen_prog(Rng &r, bool thorough) {
+GProg gen_prog(Rng &r, bool thorough, bool for_lower) {
   GProg p;
   p.nv = 2 + r.below(thorough ? 4 : 3);
   unsigned n = 1 + r.below(thorough ? 14 : 10);
@@ -242,6 +257,20 @@ GProg gen_prog(Rng &r, bool thorough) {
     p.exit = (r.below(4) == 0) ? (int)r.below(n) : (int)(n - 1);
     if (r.below(16) != 0) p.bs[p.exit].succ.clear();
   }
+  // most programs: make sure the exit can be reached from the entry (otherwise there is no
+  // exit-reaching execution to compare)
+  if (p.exit >= 0 && r.below(5) != 0) {
+    std::vector<bool> seen(n, false);
+    std::vector<unsigned> reach{p.entry};
+    seen[p.entry] = true;
+    for (size_t i = 0; i < reach.size(); i++)
+      for (unsigned t : p.bs[reach[i]].succ)
+        if (!seen[t]) { seen[t] = true; reach.push_back(t); }
+    if (!seen[p.exit]) {
+      unsigned from = reach[r.below(reach.size())];
+      add_edge(p, from, (unsigned)p.exit);
+    }
+  }
   if (r.below(3) != 0) {
     p.fd = true;
     unsigned no = 1 + r.below(2);
@@ -255,6 +284,7 @@ GProg gen_prog(Rng &r, bool thorough) {
     if (r.below(8) == 0) k = 0;
     bool allow_unreach = r.below(6) == 0;
     for (unsigned i = 0; i < k; i++) p.bs[b].st.push_back(gen_stmt(r, p.nv, allow_unreach));
+    if (for_lower && r.below(3) == 0) add_provable(r, p, b);
   }
   for (unsigned b = 0; b < n; b++) {
     if (p.bs[b].succ.size() >= 2 && r.below(3) != 0) {
@@ -298,9 +328,10 @@ std::string prog_text(const GProg &p) {
 }
 
 std::string gen(Rng &r, const Args &a) {
-  GProg p = gen_prog(r, a.tier == "thorough");
   static const char *ops[] = {"xf.simplify", "xf.simplify", "xf.simplify", "xf.dce", "xf.dce", "xf.dce", "xf.lower", "live.run", "live.run", "live.run"};
-  return std::string("(") + ops[r.below(10)] + " " + prog_text(p) + ")";
+  std::string op = ops[r.below(10)];
+  GProg p = gen_prog(r, a.tier == "thorough", op == "xf.lower");
+  return "(" + op + " " + prog_text(p) + ")";
 }
 
 } // namespace
